@@ -24,6 +24,13 @@ THEOREMS = [
     "PorepyVerif.C47.csv3d_roundtrip_upto",
     "PorepyVerif.C47.txt_roundtrip_rounded",
     "PorepyVerif.C47.txt_roundtrip",
+    "PorepyVerif.C47.polyline_read",
+    "PorepyVerif.C47.dihedral_equivalence",
+    "PorepyVerif.C47.angSort_dihedral",
+    "PorepyVerif.C47.angSort_fixed",
+    "PorepyVerif.C47.csv3d_roundtrip_dihedral",
+    "PorepyVerif.C47.csv3d_roundtrip_sorted",
+    "PorepyVerif.C47.elliptic_transparent",
 ]
 LEAN_MODULES = ["PorepyVerif.C47.Props"]
 AUDIT = "PorepyVerif/C47/Audit.lean"
@@ -36,7 +43,7 @@ KEY_TXT_1ROW = "txt-single-row-gives-0d-scalars"
 KEY_TXT_1X1 = "txt-one-by-one-raises-typeerror"
 KEY_TXT_0ROW = "txt-zero-rows-loses-all-names"
 
-RULE = ("five case kinds. csv2d (35%): 0-8 (thorough 0-25) line fractures over a point pool with shared end points, tags, optional domain, tol in {1e-8,1e-4,1e-2}; "
+RULE = ("six case kinds. csv2d (33%): 0-8 (thorough 0-25) line fractures over a point pool with shared end points, tags, optional domain, tol in {1e-8,1e-4,1e-2}; "
         "coordinate styles: small dyadics, generic doubles (1/3, 1e-17, uniform), UTM-like (5e5, 6.7e6); flavours: plain (distinct points >= 8 tol apart and not np.allclose), "
         "jitter (twins within tol/8: the network's own table merges them), rtol (twins farther than tol but np.allclose with numpy's default rtol), "
         "reader-merge (reader tol larger than the twin distance); written with/without header, read with skip_header 0/1/2, max_num_fracs, tagcols, polyline, domain options. "
@@ -45,6 +52,9 @@ RULE = ("five case kinds. csv2d (35%): 0-8 (thorough 0-25) line fractures over a
         "csv3d (20%): 0-5 planar convex polygons with 3-8 vertices (generic doubles, vertex cycle in random rotation/orientation, built with sort_points True/False), optional domain, has_domain matching or not. "
         "raw3d (10%): hand-made 3-D csv text with comments, blank lines, missing/short domain line, undecodable cells, coordinate counts not divisible by 3, fewer than 3 points. "
         "txt (15%): 0-5 named arrays of 0-6 values, formats %2.2e (default), %5.3e, %.3f, %g, %.15e, %.16e, %.17e, %.17g; names over letters/digits/_#.-, sometimes a leading #, duplicates, unequal lengths. "
+        "ell3d (6%): hand-made elliptic csv text: 0-3 rows of nine parameters, rows of 8 or 18 numbers, undecodable cells, comments, blank lines, "
+        "domain line present / missing / short / blank / a comment, degrees on or off. "
+        "csv3d cases with a truthful has_domain carry the angle keys of PlaneFracture's sort (computed with the real local_coordinates) so that vertex lists are compared exactly. "
         "non-trivial = a round trip of at least two fractures / two values; distinct = distinct cases")
 TRUSTED = [
     "the text layer is checked, not proved: csv.writer/str(np.float64)/str(int), np.genfromtxt, csv.reader + np.asarray(dtype=float), np.savetxt with %-formats, np.loadtxt; "
@@ -55,17 +65,26 @@ TRUSTED = [
     "LineFracture's np.isclose test with numpy's default rtol=1e-5/atol=1e-8; PlaneFracture's constructor (vertex sorting, planarity, convexity) is the abstract function `norm` "
     "(driver: at least 3 vertices, vertices kept); read-back vertex lists are compared up to rotation/reflection of the vertex cycle",
     "not modelled: genfromtxt storing nan for undecodable cells (the model stops with DecodeError; no such case is generated), kwargs delimiter/domain_overlap, "
-    "non-ASCII whitespace in txt names, 2-D arrays in TxtData, elliptic_network_3d_from_csv, dfm_from_gmsh",
+    "non-ASCII whitespace in txt names, 2-D arrays in TxtData, dfm_from_gmsh",
+    "the angle key of PlaneFracture.sort_points (local_coordinates: plane projection matrix, centring, arctan2) and create_elliptic_fracture are parameters of the model: the harness obtains the keys "
+    "from the real local_coordinates and records the arguments create_elliptic_fracture receives (angle scaling data*pi/180 and int(num_points) are replayed in Python); "
+    "that a convex planar polygon given in cyclic order has cyclically monotone angles about its centroid is the hypothesis CyclicMono, not proved",
 ]
 EXPLANATION = ("FULL modulo the number codec. Theorems hold for every token codec with dec(enc v) = v. csv2d_roundtrip: ORDERED list of (start,end) pairs, same order and orientation, ids 0..n-1, "
-               "domain = the argument or the bounding box; tags and domain are not stored in the 2-D file (the reader returns no tags). csv3d: the reader hands PlaneFracture's constructor exactly the stored "
-               "vertex lists in order (csv3d_transparent); equality when the constructor reproduces them, else equality up to the relation the constructor guarantees "
-               "(observed: rotation/reflection of the vertex cycle in about 2% of triangles; this is what the oracle checks). "
+               "domain = the argument or the bounding box; tags and domain are not stored in the 2-D file (the reader returns no tags). "
+               "polyline_read: reader's specification of format 2 (no writer exists): polylines with pairwise different ascending ids and >= 2 points each come back, in turn, as their consecutive point pairs "
+               "(neighbouring fractures share an end point), each with its polyline's id. "
+               "csv3d: the reader hands PlaneFracture's constructor exactly the stored vertex lists in order (csv3d_transparent). The constructor's vertex normalisation is modelled as the sort by an angle key "
+               "(a binary64, i.e. a rational) that the constructor derives from the list it is given; the key function itself (SVD-based local frame + arctan2) is float-dependent and stays a parameter. "
+               "angSort_dihedral: on a polygon seen in cyclic order by its key the sort returns the same vertex CYCLE up to rotation/reflection; Dihedral is an equivalence relation (dihedral_equivalence), so any number "
+               "of write/read passes stays in the class; csv3d_roundtrip_dihedral is the round trip up to that symmetry, csv3d_roundtrip_sorted the exact one when the key function is reproduced "
+               "(observed: about 2% of triangles come back rotated/reflected because the local frame flips; the correspondence check reproduces each of them exactly from the keys). "
+               "elliptic_transparent: reader's specification of elliptic files (nine numbers per row reach create_elliptic_fracture unchanged, row by row). "
                "txt: TxtData.format is an explicit, user-facing precision parameter (tests use %5.3e with assert_allclose), so the lossy default %2.2e is not counted as a defect: "
                "txt_roundtrip states exact equality for faithful formats (>= 17 significant digits, verified per value), txt_roundtrip_rounded states that with any format the value read is rnd(v) = float(fmt % v) "
                "(oracle: equal to that, and within 0.5 unit of the last printed digit of v). "
-               "Genuine defects (model follows the property): (1) FractureNetwork2d's point table uses np.allclose with the default rtol=1e-5 although tol is documented as absolute, so to_csv writes the "
-               "coordinates of another fracture's end point for points 1e-5-relatively close (UTM coordinates: up to tens of metres); (2) read_data_from_txt mishandles tables with one column, one row or no rows.")
+               "Two genuine defects found by this check have been repaired in /repo (recorded as fixed: in known_findings.json): np.allclose with the default rtol in the network's point table, "
+               "and read_data_from_txt on tables with one column, one row or no rows; the corpus replays them.")
 ASSUMPTIONS = [
     "2-D round trip: no two distinct end points within tol of each other (component-wise for the writer's table, Euclidean for the reader), every fracture accepted by LineFracture (end points not np.isclose)",
     "the reader is told about the header it gets: skip_header=1 (default) or 0 for a file with header, 0 for a file without; has_domain = a domain was written",
@@ -441,6 +460,44 @@ def _gen_raw3d(rng, tier):
     return {"kind": "raw3d", "lines": lines, "has_domain": has_domain, "check_convexity": rng.random() < 0.1}
 
 
+def _gen_ell3d(rng, tier):
+    lines = []
+    has_domain = rng.random() < 0.6
+    r = rng.random()
+    if has_domain:
+        if r < 0.7:
+            lines.append([frac(float(v)) for v in (-20, -20, -20, 20, 20, 20)])
+        elif r < 0.78:
+            lines.append({"c": "# the domain line may not be a comment"})
+            lines.append([frac(float(v)) for v in (-20, -20, -20, 20, 20, 20)])
+        elif r < 0.84:
+            lines.append([])
+        elif r < 0.9:
+            lines.append([frac(float(v)) for v in (-20, -20, -20, 20, 20)])
+        elif r < 0.95:
+            lines.append([frac(-20.0), None, frac(-20.0), frac(20.0), frac(20.0), frac(20.0)])
+        # else: no domain line at all (an ellipse row is taken for it, or StopIteration)
+    for _ in range(rng.choice([0, 1, 1, 2, 3])):
+        x = rng.random()
+        if x < 0.12:
+            lines.append({"c": "#" + rng.choice(["", " ellipse", "1,2"])})
+        elif x < 0.17:
+            lines.append([])
+        maj = rng.uniform(1, 4)
+        row = [rng.uniform(-5, 5), rng.uniform(-5, 5), rng.uniform(-5, 5), maj, maj * rng.uniform(0.2, 0.9),
+               rng.uniform(-3, 3), rng.uniform(-3, 3), rng.uniform(-1.5, 1.5), rng.choice([4.0, 5.0, 8.0, 12.0, 7.9, 16.0])]
+        cells = [frac(v) for v in row]
+        y = rng.random()
+        if y < 0.08:
+            cells = cells[:-1]
+        elif y < 0.14:
+            cells = cells + cells  # 18 numbers: accepted, the first nine are used
+        elif y < 0.19:
+            cells[rng.randrange(9)] = None
+        lines.append(cells)
+    return {"kind": "ell3d", "lines": lines, "has_domain": has_domain, "degrees": rng.random() < 0.4}
+
+
 NAME_CHARS = "abcxyzPQ019_.-#"
 
 
@@ -471,8 +528,9 @@ def _gen_txt(rng, tier):
 
 
 def gen_case(rng, tier):
-    k = rng.choices(["csv2d", "raw2d", "csv3d", "raw3d", "txt"], [35, 20, 20, 10, 15])[0]
-    return {"csv2d": _gen_csv2d, "raw2d": _gen_raw2d, "csv3d": _gen_csv3d, "raw3d": _gen_raw3d, "txt": _gen_txt}[k](rng, tier)
+    k = rng.choices(["csv2d", "raw2d", "csv3d", "raw3d", "txt", "ell3d"], [33, 20, 18, 9, 14, 6])[0]
+    return {"csv2d": _gen_csv2d, "raw2d": _gen_raw2d, "csv3d": _gen_csv3d, "raw3d": _gen_raw3d, "txt": _gen_txt,
+            "ell3d": _gen_ell3d}[k](rng, tier)
 
 
 # ------------------------------------------------------------------------------------------------ file text <-> lines
@@ -577,22 +635,83 @@ def _build_net3(case):
     return FractureNetwork3d(fr, dom), dom
 
 
-def _net3_out(net):
+def _net3_out(net, exact):
     bb = None
     if net.domain is not None:
         b = net.domain.bounding_box
         bb = [frac(b[k]) for k in ("xmin", "ymin", "zmin", "xmax", "ymax", "zmax")]
-    return {"fracs": [_dihedral_canon([[frac(x) for x in col] for col in f.pts.T]) for f in net.fractures], "domain": bb}
+    vl = [[[frac(x) for x in col] for col in f.pts.T] for f in net.fractures]
+    return {"fracs": vl if exact else [_dihedral_canon(f) for f in vl], "domain": bb}
 
 
-def _read3(path, has_domain, check_convexity):
+def _read3(path, has_domain, check_convexity, exact=False):
     from porepy.fracs import fracture_importer as fi
     try:
-        return _net3_out(fi.network_3d_from_csv(path, has_domain=has_domain, check_convexity=check_convexity))
+        return _net3_out(fi.network_3d_from_csv(path, has_domain=has_domain, check_convexity=check_convexity), exact)
     except BaseException as e:
         if isinstance(e, (KeyboardInterrupt, SystemExit)):
             raise
         return err_kind(e)
+
+
+def _exact3(case):
+    """csv3d cases in which the model is given the angle keys of PlaneFracture's vertex sort, so that vertex
+    lists are compared exactly (not only as vertex cycles): the reader is told the truth about the domain line."""
+    return case["has_domain"] == (case["domain"] is not None)
+
+
+def _theta(verts):
+    """the sort key of PlaneFracture.sort_points for the vertex list `verts` (list of [x, y, z] floats): the angle of
+    each vertex about the centroid in the fracture's own local coordinates (computed by the real local_coordinates)"""
+    import porepy as pp
+    f = pp.PlaneFracture(np.array(verts, dtype=float).T, sort_points=False)
+    p2 = f.local_coordinates()
+    p2 = p2 - np.mean(p2, axis=1).reshape((-1, 1))
+    return [float(t) for t in np.arctan2(p2[1], p2[0])]
+
+
+def _thetas(case):
+    """(keys of the construction sort or None, keys the reader derives from the stored vertex lists)"""
+    fr = [[[fl(x) for x in p] for p in f] for f in case["fracs"]]
+    th1 = None
+    stored = fr
+    if case["sort"]:
+        th1 = [_theta(f) for f in fr]
+        stored = [[f[i] for i in sorted(range(len(f)), key=lambda i: t[i])] for f, t in zip(fr, th1)]
+    th2 = [_theta(f) for f in stored]
+    return th1, th2
+
+
+def _read_elliptic(path, has_domain, degrees):
+    """elliptic_network_3d_from_csv with create_elliptic_fracture wrapped so that the arguments it receives are
+    recorded (three triples per ellipse: centre; major, minor, major-axis angle; strike, dip, number of points)"""
+    import porepy as pp
+    from porepy.fracs import fracture_importer as fi
+    rec = []
+    orig = pp.create_elliptic_fracture
+
+    def wrapper(center, maj, mn, a_maj, a_strike, a_dip, num_points):
+        rec.append([[frac(x) for x in center], [frac(maj), frac(mn), frac(a_maj)], [frac(a_strike), frac(a_dip), frac(int(num_points))]])
+        if not isinstance(num_points, int):
+            raise TypeError("num_points must reach create_elliptic_fracture as an int")
+        return orig(center, maj, mn, a_maj, a_strike, a_dip, num_points)
+
+    pp.create_elliptic_fracture = wrapper
+    try:
+        net = fi.elliptic_network_3d_from_csv(path, has_domain=has_domain, degrees=degrees)
+    except BaseException as e:
+        if isinstance(e, (KeyboardInterrupt, SystemExit)):
+            raise
+        return err_kind(e)
+    finally:
+        pp.create_elliptic_fracture = orig
+    bb = None
+    if net.domain is not None:
+        b = net.domain.bounding_box
+        bb = [frac(b[k]) for k in ("xmin", "ymin", "zmin", "xmax", "ymax", "zmax")]
+    if len(net.fractures) != len(rec):
+        return {"err": "fracture-count-differs-from-ellipse-rows"}
+    return {"fracs": rec, "domain": bb}
 
 
 def _txt_objs(case):
@@ -638,10 +757,14 @@ def impl_run(case):
             net, dom = _build_net3(case)
             net.to_csv(p, domain=dom)
             lines = _parse_csv_text(open(p).read())
-            return {"lines": _canon_lines3(lines, case), "net": _read3(p, case["has_domain"], case["check_convexity"])}
+            return {"held": [[[frac(x) for x in col] for col in f.pts.T] for f in net.fractures], "lines": lines,
+                    "net": _read3(p, case["has_domain"], case["check_convexity"], _exact3(case))}
         if kind == "raw3d":
             open(p, "w").write(_lines_to_text(case["lines"]))
             return {"net": _read3(p, case["has_domain"], case["check_convexity"])}
+        if kind == "ell3d":
+            open(p, "w").write(_lines_to_text(case["lines"]))
+            return {"net": _read_elliptic(p, case["has_domain"], case["degrees"])}
         if kind == "txt":
             text, rd = _txt_roundtrip(case, d)
             if text is None:
@@ -654,21 +777,6 @@ def impl_run(case):
                 out["read"] = {k: ([frac(x) for x in v] if getattr(v, "ndim", 0) == 1 else {"scalar": frac(v)}) for k, v in rd.items()}
             return out
     raise ValueError(kind)
-
-
-def _canon_lines3(lines, case):
-    """file rows of a 3-D network; when the constructor sorted the vertices the rows are compared up to
-    rotation/reflection of the vertex cycle (the domain row is kept as it is)."""
-    if not case["sort"]:
-        return lines
-    out = []
-    for i, ln in enumerate(lines):
-        if isinstance(ln, list) and not (i == 0 and case["domain"] is not None) and len(ln) % 3 == 0:
-            tri = [ln[k:k + 3] for k in range(0, len(ln), 3)]
-            out.append([x for p in _dihedral_canon(tri) for x in p])
-        else:
-            out.append(ln)
-    return out
 
 
 # ------------------------------------------------------------------------------------------------ model
@@ -688,9 +796,16 @@ def model_ops(case):
     if kind == "raw2d":
         return [{"op": "raw2d", "lines": case["lines"], "read": case["read"]}]
     if kind == "csv3d":
-        return [{"op": "csv3d", "fracs": case["fracs"], "domain": case["domain"], "has_domain": case["has_domain"]}]
+        op = {"op": "csv3d", "fracs": case["fracs"], "domain": case["domain"], "has_domain": case["has_domain"]}
+        if _exact3(case):
+            th1, th2 = _thetas(case)
+            op["thetas1"] = None if th1 is None else [[frac(t) for t in ts] for ts in th1]
+            op["thetas2"] = [[frac(t) for t in ts] for ts in th2]
+        return [op]
     if kind == "raw3d":
         return [{"op": "raw3d", "lines": case["lines"], "has_domain": case["has_domain"]}]
+    if kind == "ell3d":
+        return [{"op": "ell3d", "lines": case["lines"], "has_domain": case["has_domain"]}]
     if kind == "txt":
         return [{"op": "txt", "cols": [{"name": c["name"], "arr": c["arr"], "rounded": _rounded(c)} for c in case["cols"]]}]
     raise ValueError(kind)
@@ -699,10 +814,16 @@ def model_ops(case):
 def model_decode(outs, case):
     o = outs[0]
     kind = case["kind"]
-    if kind == "csv3d" and "lines" in o:
-        o = dict(o, lines=_canon_lines3(o["lines"], case))
-    if kind in ("csv3d", "raw3d") and isinstance(o.get("net"), dict) and "fracs" in o["net"]:
+    if (kind == "raw3d" or (kind == "csv3d" and not _exact3(case))) and isinstance(o.get("net"), dict) and "fracs" in o["net"]:
         o = dict(o, net=dict(o["net"], fracs=[_dihedral_canon(f) for f in o["net"]["fracs"]]))
+    if kind == "ell3d" and isinstance(o.get("net"), dict) and "fracs" in o["net"]:
+        # the angle scaling and int(num_points) of the reader, applied to the numbers the model hands to `mk`
+        degrees = case["degrees"]
+        sc = 1 - degrees + degrees * np.pi / 180
+        fr = []
+        for c3, a3, b3 in o["net"]["fracs"]:
+            fr.append([c3, [a3[0], a3[1], frac(fl(a3[2]) * sc)], [frac(fl(b3[0]) * sc), frac(fl(b3[1]) * sc), frac(int(fl(b3[2])))]])
+        o = dict(o, net=dict(o["net"], fracs=fr))
     if kind == "txt" and "rows" in o:
         fmts = [_fmt_of(c) for c in case["cols"]]
         rows = [[fmts[j] % fl(v) for j, v in enumerate(r)] for r in o["rows"]]
